@@ -89,6 +89,9 @@ def gen_server(c, P):
         elif a == 'trickle':
             # event-less bytes: a non-final text fragment of 300 bytes (16-bit length form) that arrives byte by byte and never completes
             items += [0x01, 0x7E, 0x01, 0x2C] + [0x61] * 280
+        elif a == 'full_buffer':
+            # a binary frame that is EXACTLY one 64 KiB receive buffer on the wire (4-byte header + 65532 payload bytes)
+            items += [0x82, 0x7E, 0xFF, 0xFC] + [c.byte('fb%d' % i)] + [(k * 7 + 3) & 0xFF for k in range(65531)]
         elif a == 'frag_open':
             # the first fragment of a data message that the server never finishes (RFC 6455 5.4/5.5: control frames - Close included -
             # may be injected in the middle of a fragmented message)
